@@ -20,6 +20,9 @@ DatesH == {"0001-01-01", "2024-02-29", "9999-12-31"}
 Second == {[kind |-> "none", a |-> "1", b |-> "1"]}
   \cup {[kind |-> k, a |-> a, b |-> b] : k \in {"SELL", "CAPRETURN", "ACCUMULATION"}, a \in Mags, b \in Mags}
   \cup {[kind |-> k, a |-> a, b |-> "1"] : k \in {"SPLIT", "UNSPLIT", "DIVIDEND"}, a \in Mags}
+  \* a second line of the same kind on the same day (they are merged): BUYSAME = another BUY on the first BUY's day,
+  \* SELLPAIR = two SELLs on one day with quantities a and b
+  \cup {[kind |-> k, a |-> a, b |-> b] : k \in {"BUYSAME", "SELLPAIR"}, a \in Mags, b \in Mags}
 EmitHostile ==
   \A q \in Mags : \A p \in Mags : \A s \in Second : \A d \in DatesH : \A order \in {"buy_first", "second_first"} :
     (s.kind = "none" => order = "buy_first") =>
